@@ -1443,6 +1443,9 @@ func (f *File) SetRequireSeparateIndirect(req []*Require) {
 	// Add new requirements.
 	for path, r := range need {
 		if have[path] == nil {
+			// Like SetRequire, ignore the Syntax field of the requirements in req
+			// and do not retain them: the caller may use req again.
+			r = &Require{Mod: r.Mod, Indirect: r.Indirect}
 			if r.Indirect {
 				moveReq(r, lastIndirectBlock)
 			} else {
